@@ -206,7 +206,10 @@ func (o *object) call(this Value, argumentList []Value, eval bool, frm frame) Va
 
 	case bindFunctionObject:
 		// TODO Passthrough site, do not enter a scope
-		argumentList = append(fn.argumentList, argumentList...)
+		// The bound arguments are a tail of the argument list of the bind call
+		// and may have spare capacity: never append into them (15.3.4.5.1).
+		bound := fn.argumentList[:len(fn.argumentList):len(fn.argumentList)]
+		argumentList = append(bound, argumentList...)
 		return fn.target.call(fn.this, argumentList, false, frm)
 
 	case nodeFunctionObject:
